@@ -78,7 +78,11 @@ def decodeRetryN (c : Coder) : Nat → Nat → Bytes → Except Err (Msg × Nat)
   | 0, cap, data => (c.decode cap data, cap)
   | fuel + 1, cap, data =>
     match c.decode cap data with
-    | .error .optCap => decodeRetryN c fuel (newCap cap) data
+    | .error .optCap =>
+      -- no progress: the real loop would re-enter the identical state (same capacity, same data) forever; the twin
+      -- stops here and hands back the capacity error, which the pooled API otherwise never returns
+      -- (`Props.C02.pool_unmarshal_total`); the driver prints it as `hang`
+      if newCap cap ≤ cap then (.error .optCap, cap) else decodeRetryN c fuel (newCap cap) data
     | r => (r, cap)
 
 /-- `UnmarshalWithDecoder(decoder, data)` on the executable twin. -/
